@@ -96,3 +96,26 @@ more("C15", "short reads are noticed; deferred stores count only into result cel
 more("C17", "BOM policy, surrogate-free hand encoders are not decided; the UTF-16 decoder is drained; conversions keep no package-level state and return no pooled storage.")
 more("C18", "every BootOrder entry is decoded (this rule found and led to the repair of efi.GetBootOrder); decoders replace a reused receiver; rendering indexes no table with an unchecked field; partial use of wire fields and code-unit arithmetic.")
 more("C19", "scratch buffers kept on the object are never written by anything a read-only operation reaches, io.Copy callbacks included; scratch copies that share elements with the receiver count as receiver-reachable; no pooled storage in results.")
+
+def more4(i, extra):
+    t, text, ref = CLAIMS[i]
+    CLAIMS[i] = (t, text + " Added with the fourth batch: " + extra, ref)
+
+more4("C01", "a part found by searching from a start offset is the part that holds it; Hash keeps nothing in package-level memory.")
+more4("C02", "an optional element read last from a nested DER structure is followed by a look at the rest; the subject of the verdict is read on every accepting path (reported whatever the shape).")
+more4("C03", "the image verifier accepts only through the PKCS7 facts.")
+more4("C04", "nothing is left behind the optional content of ContentInfo (this rule found and led to the repair of ParseContentInfo).")
+more4("C05", "the parsed shape of a structure matches the emitted one, opaque pre-encoded elements included.")
+more4("C06", "the value that is signed and the value that is emitted are built from the same variable definition.")
+more4("C07", "sizes are recomputed from the same data that is stored.")
+more4("C08", "no fixed upper limit stands between the declared list size and what is read.")
+more4("C09", "both sides of the membership test are normalised alike; a duplicate is looked for in the whole database with the list's type; errors from the membership helpers are handled; list headers are not shared between entries.")
+more4("C10", "boundary lengths (exactly the fixed part) are not refused; GUIDs are converted by the wire-order helper only.")
+more4("C11", "the name-to-GUID table is used by name; an attribute-only file is the empty value; the payload is always returned.")
+more4("C12", "every variable goes to the file its own definition names.")
+more4("C13", "array conversions and divisors from input are guarded, in the function or by every caller; no result other than nil accompanies an error; the hash stream is fed in a streaming fashion.")
+more4("C14", "array conversions and divisors from input are guarded, in the function or by every caller; no result other than nil accompanies an error.")
+more4("C15", "once the signature is on the image object Sign does not report failure.")
+more4("C17", "the whole input is converted.")
+more4("C18", "Boot#### numbers cover the full 16-bit range; device-path numbers are rendered from little-endian wire fields of their declared width (this rule found and led to the repair of the GPT signature rendering).")
+more4("C19", "readers handed out share no live cursor with the object.")
